@@ -898,6 +898,15 @@ macro_rules! _log_enabled {
     }};
 }
 
+/// verification hook (`--cfg sozu_verif`): logging compiles to nothing so that
+/// symbolic-execution harnesses never reach the `LOGGER` thread-local.
+#[cfg(sozu_verif)]
+#[macro_export]
+macro_rules! _log {
+    ($lvl:expr, $format:expr $(, $args:expr)*) => {{}};
+}
+
+#[cfg(not(sozu_verif))]
 #[macro_export]
 macro_rules! _log {
     ($lvl:expr, $format:expr $(, $args:expr)*) => {{
@@ -920,6 +929,14 @@ macro_rules! _log {
     }};
 }
 
+/// verification hook (`--cfg sozu_verif`): see `_log!`.
+#[cfg(sozu_verif)]
+#[macro_export]
+macro_rules! _log_access {
+    ($lvl:expr, $on_failure:block, $($request_record_fields:tt)*) => {{}};
+}
+
+#[cfg(not(sozu_verif))]
 #[macro_export]
 macro_rules! _log_access {
     ($lvl:expr, $on_failure:block, $($request_record_fields:tt)*) => {{
